@@ -287,5 +287,6 @@ def builtin_axioms():
         z3.Not(is_dict_u(VNone)), z3.Not(is_mapping_u(VNone)), z3.Not(is_str_u(VNone)),
         z3.ForAll([v], z3.Implies(is_dict_u(v), z3.And(is_mapping_u(v), Val.is_ref(v))), patterns=[is_dict_u(v)]),
         z3.ForAll([v], z3.Implies(is_mapping_u(v), Val.is_ref(v)), patterns=[is_mapping_u(v)]),
+        z3.ForAll([v], z3.Not(Val.is_ref(type_of(v))), patterns=[type_of(v)]),        # classes are constants, not heap objects
     ]
     return ax
